@@ -8,6 +8,7 @@ import (
 	"testing/synctest"
 	"time"
 
+	"github.com/libp2p/go-libp2p/core/network"
 	"github.com/libp2p/go-libp2p/core/peer"
 	"github.com/libp2p/go-libp2p/p2p/host/eventbus"
 	"github.com/libp2p/go-libp2p/p2p/host/peerstore/pstoremem"
@@ -73,6 +74,58 @@ func TestWitness_FDCapOvershoot(t *testing.T) {
 			}
 			cancelAll()
 			time.Sleep(time.Second)
+			synctest.Wait()
+		})
+		return
+	})
+}
+
+// A force-direct caller keeps the dial worker alive while an ordinary caller obtains a
+// relayed connection; that connection dies; the next ordinary caller joins the same worker
+// and used to be handed the dead connection it still tracked for the relay address.
+func TestWitness_StaleClosedConnFromWorker(t *testing.T) {
+	hx.Shard0(t)
+	kf.Witness(t, "C05-worker-returns-closed-conn", func() (violated bool, detail string) {
+		synctest.Test(t, func(*testing.T) {
+			local := keys.Ed(0)
+			ps, _ := pstoremem.NewPeerstore()
+			defer ps.Close()
+			P := keys.Ed(41).ID
+			relayAddr := ma.StringCast("/ip4/2.0.0.2/tcp/4001/p2p/" + relayID.String() + "/p2p-circuit")
+			tcpAddr := ma.StringCast("/ip4/1.0.0.3/tcp/4001")
+			w := scripted.NewWorld()
+			set := scripted.NewSet(w, local.ID, func(a ma.Multiaddr, _ peer.ID, _ int) scripted.Script {
+				if a.Equal(relayAddr) {
+					return scripted.Script{Outcome: scripted.Succeed, Delay: 300 * time.Millisecond}
+				}
+				return scripted.Script{Outcome: scripted.Hang}
+			})
+			sw, err := swarm.NewSwarm(local.ID, ps, eventbus.NewBus(), swarm.WithUDPBlackHoleSuccessCounter(nil), swarm.WithIPv6BlackHoleSuccessCounter(nil))
+			if err != nil {
+				t.Fatal(err)
+			}
+			defer sw.Close()
+			sw.AddTransport(set.TCP)
+			sw.AddTransport(set.Circuit)
+			ps.AddAddrs(P, []ma.Multiaddr{relayAddr, tcpAddr}, time.Hour)
+			go sw.DialPeer(network.WithForceDirectDial(context.Background(), "w"), P) // waits for the hanging TCP dial (15 s)
+			time.Sleep(40 * time.Millisecond)
+			c1, err := sw.DialPeer(context.Background(), P)
+			if err != nil || c1 == nil {
+				violated, detail = true, fmt.Sprintf("ordinary caller did not get the relayed connection: %v", err)
+				return
+			}
+			time.Sleep(time.Second)
+			sw.ClosePeer(P)
+			time.Sleep(4 * time.Second)
+			synctest.Wait()
+			ctx, cancel := context.WithTimeout(context.Background(), 30*time.Second)
+			defer cancel()
+			c2, err := sw.DialPeer(ctx, P)
+			if err == nil && c2 != nil && c2.IsClosed() {
+				violated, detail = true, "DialPeer returned a connection that was already closed (the dial worker's stale entry for the relay address)"
+			}
+			time.Sleep(20 * time.Second)
 			synctest.Wait()
 		})
 		return
